@@ -130,7 +130,13 @@ func CmpUpto(a, b []byte) int {
 //
 // Since 0.1.20
 func StrCmpUpto(a string, b []byte) int {
-	return CmpUpto(*(*[]byte)(unsafe.Pointer(&a)), b)
+	// A string header has no capacity word: give the slice header an explicit
+	// one, otherwise cap is whatever happens to follow `a` in memory.
+	sl := struct {
+		s   string
+		cap int
+	}{a, len(a)}
+	return CmpUpto(*(*[]byte)(unsafe.Pointer(&sl)), b)
 }
 
 // Len returns the number of payload bits in a bitStr.
